@@ -57,7 +57,8 @@ void CDNS::CdnsReader::read_file_header()
 
     // Read File type ID -> "C-DNS" string
     std::string file_start = m_decoder.read_textstring();
-    std::transform(file_start.begin(), file_start.end(), file_start.begin(), toupper);
+    std::transform(file_start.begin(), file_start.end(), file_start.begin(),
+                   [](unsigned char c) { return static_cast<char>(toupper(c)); });
     if (file_start != "C-DNS")
         throw CdnsDecoderException(("Invalid File type ID: " + file_start).c_str());
 
